@@ -310,3 +310,63 @@ func Harness_C19_ConnectionsReturned() {
 func Harness_C23_KeepSession() {
 	vhSessRun("C23", true, vs.Pick(3, 4), false)
 }
+
+// ---- C39, sharded path: every backend result of a multi-shard statement is delivered ----
+
+//verif:harness prop=C39 bounds="ExecuteSQLs of a sharded statement over two slices with 1..2 physical databases per slice and 1..2 statements per database (scripted pools; each backend answer is a result with 0..2 rows naming its statement); optionally one statement fails: the real getBackendConns + executeShardSQLInSlice return every backend result exactly once, grouped by slice, database and statement order, or an error"
+//verif:mock (*github.com/XiaoMi/Gaea/proxy/server.Manager).RecordBackendSQLMetrics vhSessRecordMetrics
+func Harness_C39_ShardedResults() {
+	s := vhSessSetup(false, false, false)
+	fail := vs.Choice("failingStatement", 3) // 0 none, 1 a statement of slice 0, 2 a statement of slice 1
+	s.faultOp = ""
+	for _, name := range []string{"s0", "s1"} {
+		p := s.masters[name]
+		p.ExecResult = func(c *backend.VhConn, sql string) (*mysql.Result, error) {
+			if (fail == 1 && sql == "q-s0-d0-0") || (fail == 2 && sql == "q-s1-d0-0") {
+				return nil, errors.New("backend error")
+			}
+			n := int(sql[len(sql)-1]-'0') + 1 // 1 or 2 rows, every row names the statement
+			r := &mysql.Result{Resultset: &mysql.Resultset{Fields: []*mysql.Field{{Name: []byte("c")}}}}
+			for i := 0; i < n; i++ {
+				r.Values = append(r.Values, []interface{}{sql})
+			}
+			return r, nil
+		}
+	}
+	sqls := map[string]map[string][]string{}
+	var want []string
+	for _, sl := range []string{"s0", "s1"} {
+		sqls[sl] = map[string][]string{}
+		nd := vs.IntRange("databases", 1, 2)
+		for d := 0; d < nd; d++ {
+			db := "d" + string('0'+byte(d))
+			nq := vs.IntRange("statements", 1, 2)
+			for q := 0; q < nq; q++ {
+				text := "q-" + sl + "-" + db + "-" + string('0'+byte(q))
+				sqls[sl][db] = append(sqls[sl][db], text)
+				want = append(want, text)
+			}
+		}
+	}
+	s.ns.defaultPhyDBs["d0"], s.ns.defaultPhyDBs["d1"] = "d0", "d1"
+	rc := util.NewRequestContext()
+	rs, err := s.se.ExecuteSQLs(rc, sqls)
+	if fail != 0 {
+		vs.Assert(err != nil, "C39/a-failing-shard-statement-fails-the-whole-statement")
+		return
+	}
+	vs.Assert(err == nil, "C39/sharded-statement-succeeds")
+	if err != nil {
+		return
+	}
+	vs.Assert(len(rs) == len(want), "C39/one-result-per-backend-statement")
+	for i := 0; i < len(want) && i < len(rs); i++ {
+		n := int(want[i][len(want[i])-1]-'0') + 1
+		ok := rs[i] != nil && rs[i].Resultset != nil && len(rs[i].Values) == n
+		for _, row := range rs[i].Values {
+			ok = ok && len(row) == 1 && row[0] == interface{}(want[i])
+		}
+		vs.Assert(ok, "C39/results-in-slice-database-statement-order-with-all-their-rows")
+	}
+	vs.Cover("C39/sharded-done")
+}
